@@ -366,6 +366,28 @@ impl World {
             if consumed != bytes.len() {
                 return Err(self.viol("C08", "C08.indep_consumed", format!("independent decoder left {} bytes", bytes.len() - consumed)));
             }
+            // decoding is a function of the bytes alone: a damaged datagram decoded just before (cut
+            // short, or with one byte overwritten) must not influence the decoding of this one
+            if self.step % 3 == 0 && bytes.len() > 8 && (bytes.len() < 8_000 || self.step % 12 == 0) {
+                let mut bad = bytes.clone();
+                match self.step % 4 {
+                    0 => bad.truncate(bytes.len() - 1),
+                    1 => bad.truncate(bytes.len() / 2),
+                    2 => {
+                        let i = bad.len() - 1 - (self.step % 5);
+                        bad[i] = 0xff;
+                    }
+                    _ => bad.push(1),
+                }
+                let r = crate::common::guarded(|| {
+                    let mut c = &bad[..];
+                    ChitchatMessage::deserialize(&mut c).is_ok()
+                });
+                if let Err(pm) = r {
+                    return Err(self.viol("C09", "C09.decode_panic", format!("decoder panicked on a damaged datagram: {pm}")));
+                }
+                self.stats.inc("damaged_datagram_decoded_before_valid_one");
+            }
             let mut cur = &bytes[..];
             match ChitchatMessage::deserialize(&mut cur) {
                 Ok(back) => {
